@@ -236,6 +236,31 @@ int main(int argc, char** argv) {
                       obls, [], timeout_ms=30000, replay=replay, extra=dict(bounds='all values of the type, NaN and infinities included'))
 
 
+@guard
+def h_stable_long(cname, n, ascending):
+    """stability beyond libstdc++'s insertion-sort threshold (16): a segment of n equal keys (one symbolic value, NaN included for floats)
+    sorted with stable=True must come back as the identity permutation - std::sort instead of std::stable_sort would not guarantee it"""
+    sp = kspec.spec_by_name()[cname]
+    a = [x for x in sp.args if x.name == 'fromptr'][0]
+    h = Harness(cname, unwind=400, max_instrs=6000000)
+    add_stubs(h)
+    h.scalar('length', 'int64_t', n); h.scalar('offsetslength', 'int64_t', 2)
+    h.scalar('ascending', 'bool', ascending); h.scalar('stable', 'bool', True)
+    from .kharness import elem_sort
+    srt = elem_sort(('f', a.bits) if a.kind == 'f' else ('i', a.bits))
+    v = z3.Const('key', srt)
+    if a.kind == 'b':
+        h.assume(z3.ULE(v, 1))
+    h.arr('fromptr', a.ctype, n, const=True, expr=z3.K(z3.BitVecSort(64), v))
+    h.array('offsets', 'int64_t', 2, const=True, values=[0, n])
+    h.arr('toptr', 'int64_t', n)
+    h.kcall(cname, [('buf', 'toptr'), ('buf', 'fromptr'), 'length', ('buf', 'offsets'), 'offsetslength', 'ascending', 'stable'])
+
+    def oracle(io):
+        return [('no error', io.err())] + [('equal keys keep their input order: position %d' % k, io.y('toptr', k) != k) for k in range(n)]
+    return discharge(h, '%s stable sort of %d equal keys asc=%d' % (cname, n, ascending), oracle, [], timeout_ms=30000, extra=dict(bounds=dict(n=n)))
+
+
 def jobs(tier):
     K = kspec.by_name()
     js = []
@@ -243,6 +268,9 @@ def jobs(tier):
         for ct in ('double', 'float', 'int64_t', 'uint32_t', 'int8_t'):
             for d in ('asc', 'desc'):
                 js.append((h_comparator, (which, ct, d), 300))
+    for t in ('int64', 'float64'):
+        for asc in (True, False):
+            js.append((h_stable_long, ('awkward_argsort_' + t, 17, asc), 240))
     types_q = ('int64', 'float64', 'int8', 'uint32', 'bool', 'float32')
     int_lens = [(0,), (1,), (2,), (3,), (2, 1)] if tier == 'quick' else \
         [l for r in (1, 2) for l in itertools.product(range(5), repeat=r) if sum(l) <= 6]
